@@ -302,7 +302,7 @@ def near_tie_checks(ctx, stream, count, rng):
 
 # ------------------------------------------------------------------ thresholds: parties on the line, one vote above, one vote below
 THR_POOL = ['1/3', '3/100', '1/20', '7/100', '1/10', '3/200', '1/5', '1/4', '2/5', '1/2', '1/6', '1/100', '1/8', '2/3']
-LINE_K = [1, 1, 2, 3, 7, 10 ** 6, 2 ** 53 + 1, 10 ** 25 + 7, 10 ** 30]
+LINE_K = [1, 1, 2, 3, 7, 10 ** 6, 2 ** 53 + 1, 10 ** 25 + 7, 10 ** 30, 10 ** 30 + 7, 3 * 10 ** 40 + 1]
 HB = {1: 'hare', 4: 'hagenbach_bischoff'}
 
 
@@ -327,17 +327,29 @@ def sel_exact(sel, exact):
     return {p for p, v in exact.items() if passes(v, line, sel[2])}
 
 
-def sel_obj(s, rep):
+def _as_decimal(fr):
+    """the exact Decimal of a rational with a terminating expansion of at most 12 digits, else None"""
+    for e in range(13):
+        if (fr * 10 ** e).denominator == 1:
+            return Decimal(int(fr * 10 ** e)).scaleb(-e)
+    return None
+
+
+def sel_obj(s, rep, thr_rep='frac'):
+    """thr_rep 'dec': a relative threshold is handed over as a Decimal (0.05, not 1/20) when the counts are ints - the same number,
+    but Decimal arithmetic is bound to a 28-digit context, so an implementation that multiplies it with a huge total goes wrong"""
     import votelib.evaluate.threshold as th
     if s[0] == 0:
         return th.AbsoluteThreshold(rep_num(c16.qn(s[1]), rep), accept_equal=s[2])
     if s[0] == 1:
-        return th.RelativeThreshold(c16.qn(s[1]), accept_equal=s[2])
-    return th.AlternativeThresholds([sel_obj(p_, rep) for p_ in s[1]])
+        t = c16.qn(s[1])
+        d = _as_decimal(t) if thr_rep == 'dec' and rep == 'int' else None
+        return th.RelativeThreshold(t if d is None else d, accept_equal=s[2])
+    return th.AlternativeThresholds([sel_obj(p_, rep, thr_rep) for p_ in s[1]])
 
 
 def thr_impl(c):
-    return ok([cnum(x) for x in sel_obj(c['sel'], c['rep']).evaluate(line_votes(c))])
+    return ok([cnum(x) for x in sel_obj(c['sel'], c['rep'], c.get('thr_rep', 'frac')).evaluate(line_votes(c))])
 
 
 def thr_spec(c, io, mo):
@@ -376,7 +388,7 @@ def cond_spec(c, io, mo):
 
 def cond_impl(c):
     import votelib.evaluate.core as core, votelib.evaluate.proportional as prop
-    ev = core.Conditioned(sel_obj(c['sel'], c['rep']), prop.HighestAverages(c01.divisor_obj(c['div'])))
+    ev = core.Conditioned(sel_obj(c['sel'], c['rep'], c.get('thr_rep', 'frac')), prop.HighestAverages(c01.divisor_obj(c['div'])))
     return ok(c01.enc_dist(ev.evaluate(line_votes(c), c['n'])))
 
 
@@ -438,7 +450,7 @@ def gen_line_profiles(rng, count):
         rng.shuffle(ids)
         votes = [[i, jq(v * ratio)] for i, v in zip(ids, vals)]
         rng.shuffle(votes)
-        yield dict(t=t, ae=rng.random() < 0.5, votes=votes, rep=rep, k=str(k), near=near, on_line=jq(line * k * ratio), deltas=deltas,
+        yield dict(t=t, ae=rng.random() < 0.5, votes=votes, rep=rep, thr_rep=rng.choice(['frac', 'dec']), k=str(k), near=near, on_line=jq(line * k * ratio), deltas=deltas,
                    n=rng.randint(1, 40))
 
 
